@@ -434,12 +434,8 @@ func PublishContext[T any](bus *EventBus, ctx context.Context, event T) {
 
 	for _, h := range handlersCopy {
 		// Check filter if present
-		if h.filter != nil {
-			if filterFunc, ok := h.filter.(func(T) bool); ok {
-				if !filterFunc(event) {
-					continue // Skip this handler as event doesn't match filter
-				}
-			}
+		if h.filter != nil && !filterAccepts(h.filter, event) {
+			continue // Skip this handler as event doesn't match filter
 		}
 
 		// A context that is already cancelled skips the handler without
@@ -636,6 +632,28 @@ func callHandlerWithContext[T any](h *internalHandler, ctx context.Context, even
 			}
 		}
 	}
+}
+
+// filterAccepts reports whether a handler's filter accepts the event. Filters
+// are stored as func(E) bool for the handler's event type E. When the event is
+// published through another static type (Publish[any], or an interface type
+// holding an E) handlers are still found by the dynamic type, so the predicate
+// is called through reflection then, as the handler itself is.
+func filterAccepts[T any](filter any, event T) bool {
+	if filterFunc, ok := filter.(func(T) bool); ok {
+		return filterFunc(event)
+	}
+
+	fn := reflect.ValueOf(filter)
+	ft := fn.Type()
+	if ft.Kind() != reflect.Func || ft.NumIn() != 1 || ft.NumOut() != 1 || ft.Out(0).Kind() != reflect.Bool {
+		return true
+	}
+	ev := reflect.ValueOf(event)
+	if !ev.IsValid() || !ev.Type().AssignableTo(ft.In(0)) {
+		return true
+	}
+	return fn.Call([]reflect.Value{ev})[0].Bool()
 }
 
 // Subscribe Options
